@@ -30,6 +30,25 @@ CLAIMED = {
         "technique": "Coq-verified table validator + N(T) soundness theorem + LR driver simulation proof; differential correspondence",
         "design": "DESIGN.md section 7, C04",
     },
+    "C13": {
+        "text": "Unbounded Coq theorems: (1) for every grammar containing the documented helper productions with the built-in "
+                "actions, every derivation tree of x+ / x+[sep] / x* / x? is a non-empty (resp. possibly empty, optional) sequence "
+                "of element trees covering its span and its value is the list of element values with separators dropped / the "
+                "match or None, and every non-empty element sequence is accepted; (2) iso_check is a sound validator: when it "
+                "passes, the grammar is the documented expansion (fresh helper per distinct use) up to a one-to-one renaming, "
+                "production by production with marks and actions. The executable model of group numbering and helper-rule "
+                "resolution (name-keyed sharing included) is compared exactly with the dump of the impl's live Grammar object; "
+                "iso_check is run on that dump; and the sugared grammar is run against the printed documented expansion under LR "
+                "(prefer_shifts off/on) and GLR on all short inputs plus sampled sentences (construction outcome, language, "
+                "results valued by the Coq eval). Refutation witnesses for name collisions, greedy sharing and dropped None.",
+        "note": "Partial: the general theorem no_collision -> model_expand isomorphic to doc_expand is stated but not proved "
+                "(checked per case by the verified validator); greedy (same language, maximal munch) has no theorem and is decided "
+                "on the impl against the expansion's forest. Imports, assignments and rule-level meta-data are not generated. "
+                "Known findings KF-C13-name-collision, KF-C13-greedy-sharing, KF-C13-greedy-possessive, KF-C13-collect-drops-none.",
+        "technique": "Coq proofs over a Gallina model of the sugar front end + verified grammar-isomorphism validator run on the "
+                     "impl's Grammar object + differential sugared-vs-expanded parsing",
+        "design": "DESIGN.md section 7, C13",
+    },
 }
 
 NOT_YET = "machinery for this property is not built yet in this commit (planned, see DESIGN.md section 12)"
